@@ -43,10 +43,7 @@ impl Store {
 // the comparator of the final ranking, `sort::compare_hits`, is named in the call by this tag (rule R30/R12); lane K proves on the
 // real function that it is the descending lexicographic order of the nine score slots, antisymmetric and transitive
 pub struct CmpHits;
-// h1 is not after h2: equal vectors, or the first differing slot is larger in h1
-pub open spec fn desc_le(a: [isize; 9], b: [isize; 9]) -> bool {
-    (forall|m: int| 0 <= m < 9 ==> a[m] == b[m]) || exists|k: int| 0 <= k < 9 && (forall|m: int| 0 <= m < k ==> a[m] == b[m]) && #[trigger] a[k] > b[k]
-}
+// (desc_le: the order itself is defined with the score unit, score/c08_scenarios.rs)
 mod hitx {
     use vstd::prelude::*;
     use super::{ls_le, desc_le, CmpHits, Hit};
@@ -221,8 +218,8 @@ pub open spec fn rank_ok(cands: Seq<usize>, pos: Seq<int>, recs: Seq<Record>, qu
 // the score slots of a hit without matches: everything but the rating, the word count and the character count is a constant
 proof fn lemma_empty_slots(h: Hit)
     requires slots_ok(h), h.rmatches@.len() == 0,
-    ensures h.scores.0[0] == 0, h.scores.0[1] == 0, h.scores.0[2] == 0, h.scores.0[3] == 0, h.scores.0[4] == 1, h.scores.0[5] == 0, h.scores.0[6] == h.rating,
-{ }
+    ensures h.scores.0[0] == 0, h.scores.0[1] == 0, h.scores.0[2] == 0, h.scores.0[3] == 0, h.scores.0[4] == 1, h.scores.0[5] == 0, h.rating <= 0x7fff_ffff_ffff_ffff ==> h.scores.0[6] == h.rating,
+{ lemma_rslot(h.rating, h.rating); }
 proof fn lemma_search_c12(st: &Store, query: &TextRef, ixs: Seq<usize>, hs: Seq<Hit>, pos: Seq<int>, sel: Seq<Hit>)
     requires st.srch_ok(), cand_src(ixs, st, query), trace_ok(ixs, hs, st.records@, query), query.words@.len() == 0,
         pos.len() == sel.len(), forall|k: int| 0 <= k < sel.len() ==> 0 <= #[trigger] pos[k] < hs.len() && sel[k] == hs[pos[k]],
